@@ -45,4 +45,4 @@ require (
 
 require github.com/Fantom-foundation/lachesis-base v0.0.0
 
-replace github.com/Fantom-foundation/lachesis-base => /tmp/verif-seedtest-4108/repo
+replace github.com/Fantom-foundation/lachesis-base => /repo
